@@ -84,7 +84,7 @@ def run(name, tier="quick", pid=None):
         print(name, "PATCH DOES NOT APPLY", out[-300:])
         return None
     try:
-        rc, out = sh("./check %s --tier %s" % (pid, tier), cwd=VERIF)
+        rc, out = sh("./check %s --tier %s" % (pid, tier), cwd=VERIF, env={"VERIF_OUT": "/tmp/seedout"})
     finally:
         sh("git -C /repo checkout -- .")
     viol = [l for l in out.splitlines() if l.startswith("VIOLATION")]
